@@ -229,9 +229,13 @@
          (end (string-cursor-end str))
          (out (open-output-string)))
     (let lp ((i from)
-             (sc (string-cursor-forward str
-                                        start
-                                        (modulo from (string-length str)))))
+             ;; nothing is copied when from = to, and the substring may
+             ;; then be empty
+             (sc (if (= from to)
+                     start
+                     (string-cursor-forward str
+                                            start
+                                            (modulo from (string-length str))))))
       (cond
        ((= i to)
         (get-output-string out))
